@@ -80,7 +80,7 @@ def generated(tier):
     for name, tab in TABLES.items():
         fs = formulas(name, tab, depth)
         # spread: quick takes a stride through the family, thorough all
-        stride = 1 if tier == 'thorough' else max(1, len(fs) // 12)
+        stride = max(1, len(fs) // (60 if tier == 'thorough' else 12))
         for i, f in enumerate(fs[::stride]):
             out.append((f'{name}-gen{i}',
                         tab['decls'] + f'(assert {f})\n(check-sat)\n'))
